@@ -211,3 +211,206 @@ EXPLAIN = {'illtyped_law': explain_illtyped, 'mutation_law': explain_mutation, '
 
 from harness.c07_shapes import BASE_TOKENS, SHAPES_N  # noqa: E402
 assert SHAPES_N == len(SHAPES) and BASE_TOKENS == [len(tokens_of(b)) for b in range(len(BASES))], 'harness/c07_shapes.py is out of date'
+
+
+# -- on-disk modules with the cache enabled, deep nesting -------------------------
+
+ONDISK_EXTRA = [
+	'def g() -> None:\n\ta, b = 1\n\tprint(a)\n',
+	'def g() -> None:\n\tv: bool = lambda x: x\n\tprint(v)\n',
+	'x = x\n',
+	'a = b\nb = a\n',
+	'def g(xs: list[int]) -> None:\n\tfor xs in xs:\n\t\tprint(xs)\n',
+	'class A:\n\tdef m(self) -> int:\n\t\treturn self.m\nv = A().m().z\n',
+]
+
+
+def ondisk_outcome(source: str, workdir: str) -> str | None:
+	"""the program as module gm.t on a scratch file system, cache enabled (the normal command-line situation): a first run that also
+	stores the caches and a second run that finds them"""
+	import os
+	from harness import c05_pipeline as pl
+	src = os.path.join(workdir, 'src')
+	pl.write(src, 'gm.t', source, 1_700_000_000.0)
+	for attempt in ('cold', 'warm'):
+		try:
+			pl.run_raising(src, os.path.join(workdir, 'cache'), ['gm.t'])
+			cover('accepted')
+		except Errors.Error as e:
+			cover('tranp_error')
+			try:
+				text = ErrorRender(e).render()
+			except Exception as e2:  # noqa: BLE001
+				return f'({attempt} cache) rendering {type(e).__name__} fails with {type(e2).__name__}: {str(e2)[:160]}'
+			if type(e).__name__ not in text:
+				return f'({attempt} cache) rendering {type(e).__name__} gives {text[-80:]!r}'
+		except Exception as e:  # noqa: BLE001
+			import traceback
+			tb = traceback.extract_tb(e.__traceback__)[-1]
+			return f'({attempt} cache) {type(e).__name__} escapes ({tb.filename.split("/")[-1]}:{tb.lineno} {tb.name}): {str(e)[:120]}'
+	return None
+
+
+def ondisk_programs() -> list:
+	out = list(ONDISK_EXTRA)
+	for s in (0, 3, 4, 6):
+		out += [program(s, t, 0) for t in range(len(TYPES))]
+		out += [program(s, 0, e) for e in range(len(EXPRS))]
+	for s in (8, 9, 10, 11):
+		out += [program(s, t, 0) for t in range(len(TYPES))]
+	for s in (12, 14, 15):
+		out += [program(s, 0, e) for e in range(len(EXPRS))]
+	seen = set()
+	return [p for p in out if not (p in seen or seen.add(p))]
+
+
+def ondisk_closed() -> bool:
+	import shutil
+	import tempfile
+	from vlib import prelude
+	k, m = CASE.get('slice', [0, 1])
+	del NOTES[:]
+	for idx, src in enumerate(ondisk_programs()):
+		if idx % m != k:
+			continue
+		cover('member')
+		work = tempfile.mkdtemp(prefix='c07d-', dir=prelude.scratch())
+		try:
+			bad = ondisk_outcome(src, work)
+		finally:
+			shutil.rmtree(work, ignore_errors=True)
+		if bad:
+			NOTES.append(f'{src!r} on disk: {bad}')
+	return ok(not NOTES)
+
+
+def deep_programs() -> list:
+	out = []
+	for n in (50, 900, 1200, 3000):
+		out.append((f'list literal nested {n} deep', 'a = ' + '[' * n + '1' + ']' * n + '\n'))
+		out.append((f'{n} nested parentheses', 'a = ' + '(' * n + '1' + ')' * n + '\n'))
+		out.append((f'sum of {n} terms', 'a = ' + ' + '.join(['1'] * n) + '\n'))
+		out.append((f'attribute chain of {n}', 'a = 1\nb = a' + '.x' * n + '\n'))
+		out.append((f'{n} unary minus signs', 'a = ' + '- ' * n + '1\n'))
+	for n in (20, 90):
+		out.append((f'{n} nested if blocks', ''.join('\t' * i + 'if True:\n' for i in range(n)) + '\t' * n + 'pass\n'))
+		out.append((f'{n} nested functions', ''.join('\t' * i + f'def f{i}() -> None:\n' for i in range(n)) + '\t' * n + 'pass\n'))
+	out.append(('elif chain of 400', 'a = 1\nif a == 0:\n\tpass\n' + ''.join(f'elif a == {i}:\n\tpass\n' for i in range(1, 400))))
+	out.append(('call nested 600 deep', 'def f(a: int) -> int:\n\treturn a\nb = ' + 'f(' * 600 + '1' + ')' * 600 + '\n'))
+	return out
+
+
+def deep_closed() -> bool:
+	"""deeply nested / very long inputs: the pipeline still returns, with success or an application error that renders"""
+	k, m = CASE.get('slice', [0, 1])
+	del NOTES[:]
+	for idx, (name, src) in enumerate(deep_programs()):
+		if idx % m != k:
+			continue
+		cover('member')
+		bad = outcome(src)
+		if bad:
+			NOTES.append(f'{name}: {bad}')
+	return ok(not NOTES)
+
+
+EXPLAIN['ondisk_closed'] = lambda: f'{len(NOTES)} programs: ' + ' ; '.join(NOTES[:4])
+EXPLAIN['deep_closed'] = lambda: f'{len(NOTES)} programs: ' + ' ; '.join(NOTES[:4])
+
+
+def ondisk_law(i: int) -> bool:
+	"""a single member of the on-disk family (recorded witnesses)"""
+	import shutil
+	import tempfile
+	from vlib import prelude
+	work = tempfile.mkdtemp(prefix='c07d-', dir=prelude.scratch())
+	try:
+		return ok(ondisk_outcome(ondisk_programs()[i], work) is None)
+	finally:
+		shutil.rmtree(work, ignore_errors=True)
+
+
+def deep_law(i: int) -> bool:
+	"""a single member of the deep-nesting family (recorded witnesses)"""
+	return ok(outcome(deep_programs()[i][1]) is None)
+
+
+EXPLAIN['ondisk_law'] = lambda i: repr(ondisk_programs()[i])
+EXPLAIN['deep_law'] = lambda i: deep_programs()[i][0]
+
+
+# -- the interactive loop ---------------------------------------------------------
+
+LOOP_INPUTS = [
+	('valid', 'def f(a: int) -> int:\n\treturn a + 1'),
+	('valid2', 'class A:\n\tdef m(self) -> int:\n\t\treturn 2'),
+	('unparsable', 'def g(:'),
+	('unknown-type', 'def g(a: Foo) -> None: ...'),
+	('missing-import', 'from c07.no.such.module import X\ndef g(a: X) -> None: ...'),
+	('unknown-variable', 'def g(a: int) -> int:\n\treturn b'),
+	('self-outside-class', 'def g(self) -> int:\n\treturn 1'),
+	('bad-generic', 'def g(a: dict[int]) -> None:\n\tfor k, v in a.items():\n\t\tprint(k)'),
+	('bad-base', 'class B([T]):\n\tpass'),
+]
+
+
+def run_loop(sources: list) -> tuple:
+	"""Interactive.run over scripted inputs (only the terminal is replaced) -> (escaped exception | None, printed text, unconsumed inputs)"""
+	import contextlib
+	import io
+	import os
+	import rogw.tranp.bin.transpile as transpile_bin
+	from rogw.tranp.app.app import App
+	from rogw.tranp.bin.transpile import Args, TranspileApp
+	from rogw.tranp.cache.cache import CacheSetting
+	from rogw.tranp.lang.module import to_fullyname
+	from rogw.tranp.module.types import ModulePaths
+	from vlib import prelude
+	inputs = [s.split('\n') for s in sources] + [['exit']]
+	definitions = TranspileApp.definitions(Args(['-c', os.path.join(prelude.REPO, 'example/config.yml'), '-it']))
+	definitions[to_fullyname(CacheSetting)] = lambda: CacheSetting(basedir=os.path.join(prelude.scratch(), 'cache'))
+	definitions[to_fullyname(ModulePaths)] = lambda: ModulePaths([])
+	org = transpile_bin.tty
+	transpile_bin.tty = lambda prompt='': inputs.pop(0)
+	out = io.StringIO()
+	escaped = None
+	try:
+		with contextlib.redirect_stdout(out):
+			try:
+				App(definitions).run(TranspileApp.run)
+			except BaseException as e:  # noqa: BLE001
+				escaped = e
+	finally:
+		transpile_bin.tty = org
+	return escaped, out.getvalue(), len(inputs)
+
+
+def interactive_closed() -> bool:
+	"""every history [x, y, valid] over the input pool through the real Interactive.run: nothing escapes, every input is consumed
+	(the loop kept running), and the final valid input prints what a fresh loop prints for it"""
+	k, m = CASE.get('slice', [0, 1])
+	del NOTES[:]
+	valid = LOOP_INPUTS[0][1]
+	esc, fresh, left = run_loop([valid])
+	if esc is not None or left or 'Result:' not in fresh:
+		NOTES.append(f'harness problem: a fresh loop does not accept the valid input ({esc!r}, {fresh[-200:]!r})')
+		return ok(False)
+	want = fresh.split('Result:')[-1]
+	idx = 0
+	for nx, x in LOOP_INPUTS:
+		for ny, y in LOOP_INPUTS:
+			idx += 1
+			if idx % m != k:
+				continue
+			cover('member')
+			esc, text, left = run_loop([x, y, valid])
+			if esc is not None:
+				NOTES.append(f'inputs [{nx}, {ny}, valid]: {type(esc).__name__} escapes from Interactive.run with {left} input(s) unread: {str(esc)[:120]}')
+			elif left:
+				NOTES.append(f'inputs [{nx}, {ny}, valid]: the loop stopped with {left} input(s) unread')
+			elif text.split('Result:')[-1] != want:
+				NOTES.append(f'inputs [{nx}, {ny}, valid]: the final valid input prints {text.split("===============")[-1][-200:]!r}')
+	return ok(not NOTES)
+
+
+EXPLAIN['interactive_closed'] = lambda: f'{len(NOTES)} histories: ' + ' ; '.join(NOTES[:4])
